@@ -13,7 +13,7 @@ MUTANTS = [
     ("c01_payload_off_by_one", "C01", "han/hdlc.py", "            return bytes(self._frame_data[info_position:-2])", "            return bytes(self._frame_data[info_position:-2]) if len(self._frame_data) < 1000 else bytes(self._frame_data[info_position + 1 : -2])"),
     ("c01_address_loop_4_octets", "C02", "han/hdlc.py", "                if (current & 0x01) == 0x01:\n                    return bytes(adr)", "                if (current & 0x01) == 0x01 or len(adr) == 3:\n                    return bytes(adr)"),
     # ---- C02 / C06 / C16: reader state machine
-    ("c02_max_len_ge", "C02", "han/hdlc.py", "            if len(self._frame) > HdlcFrame.MAX_FRAME_LENGTH:", "            if len(self._frame) >= HdlcFrame.MAX_FRAME_LENGTH:"),
+    ("c02_max_len_ge", "C02", "han/hdlc.py", "            and len(self._frame) > HdlcFrame.MAX_FRAME_LENGTH\n        ):", "            and len(self._frame) >= HdlcFrame.MAX_FRAME_LENGTH\n        ):"),
     ("c06_escape_cleared_per_call", "C06", "han/hdlc.py", "        frames_received: list[HdlcFrame] = []\n\n        self._buffer.extend(data_chunk)", "        frames_received: list[HdlcFrame] = []\n        self._unescape_next = False\n\n        self._buffer.extend(data_chunk)"),
     ("c16_escape_survives_flag", "C16", "han/hdlc.py", "        # A flag sequence always ends a pending control escape. It must not be carried over to the next frame.\n        self._unescape_next = False\n", ""),
     ("c06_raw_history_per_call", "C06", "han/hdlc.py", "        frames_received: list[HdlcFrame] = []\n\n        self._buffer.extend(data_chunk)", "        frames_received: list[HdlcFrame] = []\n        self._raw_frame_data.clear()\n\n        self._buffer.extend(data_chunk)"),
